@@ -319,3 +319,9 @@ package strategy
 //@ func NewMajorityStrategy
 //@ ensures[C04,C05,C06,C14] "fresh-and-separate-objects" fresh(result)
 // ---- end of generated constructor contracts ----
+
+// the pairings offered to the backtest program (loops over the base strategies): only their results' count matters there
+//@ func AllSplitStrategies
+//@ trusted enumerates pairs of strategies
+//@ func AllAndStrategies
+//@ trusted enumerates pairs of strategies
